@@ -191,6 +191,36 @@ def run(ctx):
                "default state must be the shared DUMMY control group with mask 15 (full for insertion, empty for lookup)")
     ctx.floor("C18.R2c", n2, 3, "default constructors of the fixed table")
 
+    # ------------------------------------------------ R5 clear resets the mirrored tail group too
+    # insertion writes every tag twice (slot + mirror in the 16-byte tail group that lets a SIMD load wrap);
+    # a clear that resets control bytes must reset that tail group on the same path, else old keys that had
+    # wrapped into slots 0..14 are still found after clear()
+    n5 = 0
+    for fn in fb.find(pred=lambda f: C03.FIXED.match(f.record or "") and f.name == "clear" and f.has_cfg()):
+        n5 += 1
+        ig = IG(fn, inline=nin)
+        live = ig.live_nodes()
+        resets, mirrors = [], []
+        for n in ig.ev_nodes(lambda n: n.id in live and n.ev["e"] == "call"):
+            nm = n.ev.get("callee", "") or ""
+            if nm.endswith("::Group::clear") or nm in ("__builtin_memset", "memset"):
+                a0 = ig.rarg(n, 0)
+                if L.deep_find(ig, a0, lambda d: d.get("k") == "f" and d.get("n") == "_controls") is None:
+                    continue
+                off_is_count = L.deep_find(ig, a0, lambda d: d.get("k") == "e" and ig.ev_of(d) is not None and
+                                           ig.ev_of(d).ev.get("name") == "bucket_count") is not None
+                if nm.endswith("::Group::clear") and off_is_count:
+                    mirrors.append(n)
+                else:
+                    resets.append(n)
+        ok = bool(resets) and bool(mirrors) and all(ig.postdominated_by(r, mirrors) for r in resets)
+        bad = [r for r in resets if not ig.postdominated_by(r, mirrors)]
+        ctx.ob("C18.R5", L.short(fn), ok, (bad[0].where if bad else fn.loc),
+               "clear() resets control bytes on a path that does not also reset the mirrored tail group at "
+               "_controls + bucket_count(): keys whose tag was mirrored there are still found (and block re-insertion) "
+               "after clear()", site="%s@mirror-reset" % L.short(fn))
+    ctx.floor("C18.R5", n5, 3, "fixed table clear() instances")
+
     # ------------------------------------------------ R3 rebuild paths
     n3 = 0
     for fn in fns:
